@@ -22,16 +22,20 @@ repaired behaviour.
 
 Kernel assumptions (trusted base): in-order byte stream; a `recvmsg` into a buffer of ≥ 1 byte returns
 EAGAIN or 1..min(requested, queued) bytes; SCM_RIGHTS descriptors arrive with the first byte of the
-`sendmsg` they were attached to; at most 10 fit the control buffer; the peer does not hang up (a hang-up
+`sendmsg` they were attached to (which byte of the frame that is, is the peer's choice: the placement `p`); at most 10 fit the control buffer; the peer does not hang up (a hang-up
 is outside this model; then `ConnectionClosed` is the right answer).
 -/
 namespace Rustbus.Recv
 open Rustbus Rustbus.Bytes Rustbus.Header
 
+/- `p` is the peer's placement of each frame's descriptors: the byte of the frame they ride on (`FramesOk p`: inside
+    the frame). All theorems hold for EVERY placement; rustbus as a sender uses `p = 0`. -/
+variable {p : Frame → Nat}
+
 /-- every reachable state satisfies the invariant for the frames not yet handed out -/
 private theorem reach {frames : List Frame} {acts : List Action} {tr : List Res} {st : State} {w : World}
-    (hok : ∀ f ∈ frames, FrameOk f) (h : run State.empty (World.init frames) acts = (tr, st, w)) :
-    Inv (frames.drop (msgs tr).length) st w ∧ FramesOk (frames.drop (msgs tr).length) ∧
+    (hok : FramesOk p frames) (h : run State.empty (World.init p frames) acts = (tr, st, w)) :
+    Inv p (frames.drop (msgs tr).length) st w ∧ FramesOk p (frames.drop (msgs tr).length) ∧
     msgs tr = frames.take (msgs tr).length ∧ (msgs tr).length ≤ frames.length ∧
     ∀ r ∈ tr, r.good = true := by
   obtain ⟨todo, hI, hok', ht, hg⟩ := run_inv acts frames _ _ (inv_init frames) hok tr st w h
@@ -79,10 +83,10 @@ theorem never_reports_closed (st : State) (w : World) (acts : List Action) :
     remaining frames is either in the buffer / `fds_in` or still unread in the socket (nothing lost, nothing
     duplicated, whatever timed out in between); no call failed and none reported a closed connection. -/
 theorem reassembly (frames : List Frame) (acts : List Action) (tr : List Res) (st : State) (w : World)
-    (hok : ∀ f ∈ frames, FrameOk f) (h : run State.empty (World.init frames) acts = (tr, st, w)) :
+    (hok : FramesOk p frames) (h : run State.empty (World.init p frames) acts = (tr, st, w)) :
     ∃ n, n = (msgs tr).length ∧ n ≤ frames.length ∧ msgs tr = frames.take n ∧
-      (stream (frames.drop n)).map Prod.fst = st.buf ++ w.rest.map Prod.fst ∧
-      (stream (frames.drop n)).flatMap Prod.snd = st.fds ++ w.rest.flatMap Prod.snd ∧
+      (stream p (frames.drop n)).map Prod.fst = st.buf ++ w.rest.map Prod.fst ∧
+      (stream p (frames.drop n)).flatMap Prod.snd = st.fds ++ w.rest.flatMap Prod.snd ∧
       (∀ r ∈ tr, r.good = true) ∧ Res.closed ∉ tr := by
   obtain ⟨hI, _, hk, hle, hg⟩ := reach hok h
   obtain ⟨hc1, hc2⟩ := inv_conservation hI
@@ -92,18 +96,18 @@ theorem reassembly (frames : List Frame) (acts : List Action) (tr : List Res) (s
   simp [Res.good] at this
 
 /-- The key invariant, at every point of every history: the buffer is a prefix of the CURRENT frame (it
-    never contains a byte of the next one), `fds_in` holds exactly the current frame's descriptors once its
-    first byte is in (none before), the announced size is the current frame's length (16 before the header
+    never contains a byte of the next one), `fds_in` holds exactly the current frame's descriptors once the
+    byte they ride on is in (none before), the announced size is the current frame's length (16 before the header
     is complete), the next `recvmsg` asks for no more than the rest of the current frame, and once the
     current frame is complete a `read_once` reads nothing at all. When no frame is left there is nothing to
     read. -/
 theorem never_reads_past_frame (frames : List Frame) (acts : List Action) (tr : List Res) (st : State)
-    (w : World) (hok : ∀ f ∈ frames, FrameOk f)
-    (h : run State.empty (World.init frames) acts = (tr, st, w)) :
+    (w : World) (hok : FramesOk p frames)
+    (h : run State.empty (World.init p frames) acts = (tr, st, w)) :
     let todo := frames.drop (msgs tr).length
     let cur := hd todo
     st.buf <+: cur.bytes ∧
-    st.fds = (if st.buf.length = 0 then [] else cur.fds) ∧
+    st.fds = (if st.buf.length ≤ p cur then [] else cur.fds) ∧
     (∃ nd, bytesNeeded st.buf = .bytes nd ∧ nd = (if st.buf.length < 16 then 16 else cur.bytes.length) ∧
       (todo ≠ [] → (reserve st nd).cap - st.buf.length ≤ cur.bytes.length - st.buf.length)) ∧
     (todo ≠ [] → st.buf = cur.bytes →
@@ -136,14 +140,14 @@ theorem never_reads_past_frame (frames : List Frame) (acts : List Action) (tr : 
     rw [hd_nil_len] at hle
     have hb : st.buf = [] := List.length_eq_zero_iff.mp (by omega)
     refine ⟨hb, ?_⟩
-    rw [hr, hb]; simp [hd, cells, stream]
+    rw [hr, hb]; simp [hd, cells, cellsFrom, stream]
 
 /-- Memory is committed for bytes that arrived, not for what a header claims: at every point of every
     history the buffer fits its reservation, the reservation never exceeds the current frame's length
     (16 while no frame is pending) and never exceeds `filled + 64 KiB` (the `MAX_GROWTH` step; 16 at least). -/
 theorem capacity_bounded (frames : List Frame) (acts : List Action) (tr : List Res) (st : State)
-    (w : World) (hok : ∀ f ∈ frames, FrameOk f)
-    (h : run State.empty (World.init frames) acts = (tr, st, w)) :
+    (w : World) (hok : FramesOk p frames)
+    (h : run State.empty (World.init p frames) acts = (tr, st, w)) :
     st.buf.length ≤ st.cap ∧
     st.cap ≤ max 16 (hd (frames.drop (msgs tr).length)).bytes.length ∧
     st.cap ≤ max 16 (st.buf.length + maxGrowth) := by
@@ -229,11 +233,11 @@ theorem read_whole_message_always_reads (st : State) (w : World) (nd k : Nat) (h
           simp only [List.length_append, List.length_cons] at this
           omega
 
-/-- Chunking is irrelevant: a history that has consumed the whole stream (nothing buffered, nothing unread)
+/-- Chunking is irrelevant: a history that has consumed the whole stream p (nothing buffered, nothing unread)
     has returned exactly the frames - whatever the chunking, the short reads, the timeouts, the calls used. -/
 theorem complete_history_returns_all (frames : List Frame) (acts : List Action) (tr : List Res) (st : State)
-    (w : World) (hok : ∀ f ∈ frames, FrameOk f)
-    (h : run State.empty (World.init frames) acts = (tr, st, w))
+    (w : World) (hok : FramesOk p frames)
+    (h : run State.empty (World.init p frames) acts = (tr, st, w))
     (hb : st.buf = []) (hr : w.rest = []) : msgs tr = frames := by
   obtain ⟨hI, hok', hk, _, _⟩ := reach hok h
   have hw : check st ≠ .whole := by unfold check; rw [hb]; simp
@@ -244,9 +248,9 @@ theorem complete_history_returns_all (frames : List Frame) (acts : List Action) 
 
 /-- Any two complete histories over the same frames return the same messages. -/
 theorem chunking_irrelevant (frames : List Frame) (a1 a2 : List Action) (tr1 tr2 : List Res)
-    (st1 st2 : State) (w1 w2 : World) (hok : ∀ f ∈ frames, FrameOk f)
-    (h1 : run State.empty (World.init frames) a1 = (tr1, st1, w1))
-    (h2 : run State.empty (World.init frames) a2 = (tr2, st2, w2))
+    (st1 st2 : State) (w1 w2 : World) (hok : FramesOk p frames)
+    (h1 : run State.empty (World.init p frames) a1 = (tr1, st1, w1))
+    (h2 : run State.empty (World.init p frames) a2 = (tr2, st2, w2))
     (hb1 : st1.buf = []) (hr1 : w1.rest = []) (hb2 : st2.buf = []) (hr2 : w2.rest = []) :
     msgs tr1 = msgs tr2 := by
   rw [complete_history_returns_all frames a1 tr1 st1 w1 hok h1 hb1 hr1,
@@ -256,10 +260,10 @@ theorem chunking_irrelevant (frames : List Frame) (a1 a2 : List Action) (tr1 tr2
     history in which each byte arrives alone and is followed by one `get_next_message` whose `recvmsg`
     returns that byte is complete and returns exactly the frames (so complete histories exist for every
     frame list). -/
-theorem one_byte_at_a_time (frames : List Frame) (hok : ∀ f ∈ frames, FrameOk f) :
-    ∃ tr st w, run State.empty (World.init frames) (oneByte (totalLen frames)) = (tr, st, w) ∧
+theorem one_byte_at_a_time (frames : List Frame) (hok : FramesOk p frames) :
+    ∃ tr st w, run State.empty (World.init p frames) (oneByte (totalLen frames)) = (tr, st, w) ∧
       msgs tr = frames ∧ st.buf = [] ∧ w.rest = [] := by
-  cases h : run State.empty (World.init frames) (oneByte (totalLen frames)) with
+  cases h : run State.empty (World.init p frames) (oneByte (totalLen frames)) with
   | mk tr p =>
     cases p with
     | mk st w =>
@@ -303,39 +307,61 @@ def exHistory : List Action :=
    .call .getNext all, .arrive 20, .call .getNext all, .call .readMore [], .arrive 45, .call .getNext all,
    .call .getNext all]
 
-example : (run State.empty (World.init [exF1, exF2]) exHistory).1 =
+example : (run State.empty (World.init (fun _ => 0) [exF1, exF2]) exHistory).1 =
     [.timedOut, .readOk, .readOk, .timedOut, .timedOut, .msg exF1.bytes [], .timedOut, .timedOut,
      .msg exF2.bytes [7, 9], .timedOut] := by decide +kernel
 
-example : msgs (run State.empty (World.init [exF1, exF2]) exHistory).1 = [exF1, exF2] := by decide +kernel
+example : msgs (run State.empty (World.init (fun _ => 0) [exF1, exF2]) exHistory).1 = [exF1, exF2] := by decide +kernel
 
-example : msgs (run State.empty (World.init [exF1, exF2]) (oneByte 113)).1 = [exF1, exF2] := by
+example : msgs (run State.empty (World.init (fun _ => 0) [exF1, exF2]) (oneByte 113)).1 = [exF1, exF2] := by
+  decide +kernel
+
+/-- a peer that attaches the descriptors of the second message to its 21st byte (inside the header fields) -/
+def exLate : Frame → Nat := fun f => if f = exF2 then 20 else 0
+
+example : FramesOk exLate [exF1, exF2] := by
+  intro f hf
+  simp only [List.mem_cons, List.not_mem_nil, or_false] at hf
+  rcases hf with rfl | rfl <;> decide +kernel
+
+example : (run State.empty (World.init exLate [exF1, exF2]) exHistory).1 =
+    [.timedOut, .readOk, .readOk, .timedOut, .timedOut, .msg exF1.bytes [], .timedOut, .timedOut,
+     .msg exF2.bytes [7, 9], .timedOut] := by decide +kernel
+
+example : msgs (run State.empty (World.init exLate [exF1, exF2]) (oneByte 113)).1 = [exF1, exF2] := by
+  decide +kernel
+
+-- the descriptors are not there before their byte: after 20 bytes of the second message nothing, after 21 both
+example : ((run State.empty (World.init exLate [exF2])
+      [.arrive 20, .call .readOnce [.deliver 20], .call .readOnce [.deliver 20]]).2.1.fds,
+    (run State.empty (World.init exLate [exF2])
+      [.arrive 21, .call .readOnce [.deliver 21], .call .readOnce [.deliver 21]]).2.1.fds) = ([], [7, 9]) := by
   decide +kernel
 
 /-- The history that used to break reassembly: both frames queued, `read_once` three times, then two
     `get_next_message`. The third `read_once` finds a complete buffer: it returns `Ok(())` and reads nothing,
     and the second message is returned WITH its descriptors 7 and 9. -/
 theorem read_once_on_complete_buffer_keeps_descriptors :
-    (run State.empty (World.init [exF1, exF2])
+    (run State.empty (World.init (fun _ => 0) [exF1, exF2])
       [.arrive 113, .call .readOnce all, .call .readOnce all, .call .readOnce all, .call .getNext all,
        .call .getNext all]).1 =
     [.readOk, .readOk, .readOk, .msg exF1.bytes [], .msg exF2.bytes [7, 9]] := by decide +kernel
 
 /-- ... and that third call changed neither the connection nor the socket -/
 example :
-    (run State.empty (World.init [exF1, exF2])
+    (run State.empty (World.init (fun _ => 0) [exF1, exF2])
       [.arrive 113, .call .readOnce all, .call .readOnce all, .call .readOnce all]).2 =
-    (run State.empty (World.init [exF1, exF2]) [.arrive 113, .call .readOnce all, .call .readOnce all]).2 := by
+    (run State.empty (World.init (fun _ => 0) [exF1, exF2]) [.arrive 113, .call .readOnce all, .call .readOnce all]).2 := by
   decide +kernel
 
 /-- the premise of `read_once_on_complete_buffer_is_noop` is reachable, with the next message queued -/
 example :
-    check (run State.empty (World.init [exF1, exF2])
+    check (run State.empty (World.init (fun _ => 0) [exF1, exF2])
       [.arrive 113, .call .readOnce all, .call .readOnce all]).2.1 = .whole := by decide +kernel
 
 /-- raw `read_once` calls on complete buffers sprinkled over a chunked history (chunks 48+1, 10, 54; the second
     message's first byte - the one its descriptors ride on - is queued while the first message is complete) -/
-example : (run State.empty (World.init [exF1, exF2])
+example : (run State.empty (World.init (fun _ => 0) [exF1, exF2])
       [.arrive 49, .call .readOnce all, .call .readOnce all, .call .readOnce [], .call .readOnce [.arrive 10, .deliver 7],
        .call .getNext all, .call .readOnce all, .arrive 54, .call .readMore all, .call .readOnce all,
        .call .readOnce [.wouldBlock], .call .getNext all, .call .readOnce all]).1 =
@@ -343,8 +369,8 @@ example : (run State.empty (World.init [exF1, exF2])
      .msg exF2.bytes [7, 9], .timedOut] := by decide +kernel
 
 /-- the zero-length `recvmsg` of the kernel model does steal descriptors - it is only never issued -/
-example : recvmsg { rest := cells exF2, avail := 65 } 0 5 =
-    (.data [] [7, 9], { rest := (108, []) :: (cells exF2).drop 1, avail := 65 }) := by decide +kernel
+example : recvmsg { rest := cells (fun _ => 0) exF2, avail := 65 } 0 5 =
+    (.data [] [7, 9], { rest := (108, []) :: (cells (fun _ => 0) exF2).drop 1, avail := 65 }) := by decide +kernel
 
 /-- refused announcements exist: a bad endianness byte, and a field array of 64 MiB + 1 -/
 example : bytesNeeded (120 :: exF1.bytes.drop 1) = .invalid := by decide +kernel
